@@ -1,4 +1,5 @@
 """C05 Frame axes and frequency/index conversion (DESIGN §4.C05)."""
+import ast
 from vstatic import terms as T
 from vstatic.terms import sym, Term, lift, pretty
 
@@ -102,6 +103,40 @@ def run(ctx):
         I2.quantity_plain = False
         ctx.formula('FORMULA', f'{fi.name}: Quantity arm converts, plain arm is the identity', fi, r.ret,
                     ctx.spec(fi, spec, I=I2), node=fi.node, construct=f'return {fi.name}')
+
+    # UNITARG: a parameter documented as "float or astropy.Quantity" reaches arithmetic only after unit_utils.get_value /
+    # cast_value (or is merely forwarded to another function); arithmetic on the raw argument raises UnitConversionError for
+    # a unit-carrying value or silently mixes units
+    import re as _re
+    DOC_ERRORS = {('funcs.t_profiles.periodic_gaussian_t_profile', 'pnum'):
+                  'documented "float or astropy.Quantity" by copy-paste; it is a count (used with // and %)'}
+    n_q = 0
+    for f2 in ctx.prog.functions.values():
+        if isinstance(f2.node, ast.Lambda):
+            continue
+        doc = ast.get_docstring(f2.node) or ''
+        qs = {m.group(1) for m in _re.finditer(r'^\s*(\w+)\s*:\s*([^\n]*)$', doc, _re.M) if 'Quantity' in m.group(2)}
+        for pn in sorted(qs & set(f2.all_params())):
+            if (f2.short, pn) in DOC_ERRORS:
+                continue
+            n_q += 1
+            conv, arith = [], []
+            for n in ast.walk(f2.node):
+                if isinstance(n, ast.Call) and ast.unparse(n.func).split('.')[-1] in ('get_value', 'cast_value') and n.args \
+                        and isinstance(n.args[0], ast.Name) and n.args[0].id == pn:
+                    conv.append(n)
+                if isinstance(n, (ast.BinOp, ast.Compare, ast.UnaryOp)):
+                    if any(isinstance(c, ast.Name) and c.id == pn for c in ast.iter_child_nodes(n)):
+                        arith.append(n)
+            first = min((c.lineno for c in conv), default=None)
+            bad = [a for a in arith if first is None or a.lineno < first]
+            if bad:
+                ctx.ob('UNITARG', f'`{pn}` (documented as float or astropy.Quantity) is converted with unit_utils before it is used in '
+                       'arithmetic', f2, False, {'arithmetic_on_raw_argument': ast.unparse(bad[0])[:100]}, node=bad[0])
+    ctx.require(n_q >= 20, f'UNITARG: only {n_q} Quantity-documented parameters found (vacuity guard)')
+    ctx.ob('UNITARG', 'package sweep: Quantity-documented parameters are unit-converted before arithmetic', 'setigen/**', True,
+           {'parameters_checked': n_q, 'documented_exceptions': {f'{k[0]}.{k[1]}': v for k, v in DOC_ERRORS.items()}},
+           construct='package sweep: unit-carrying parameters')
 
     # ---- D6 backend parameters
     ctx.clause = 'D6'
